@@ -452,7 +452,7 @@ func isListPtr(t types.Type) bool {
 }
 
 var syncTypeMap = map[string]string{
-	"sync.Mutex": "Mutex", "sync.RWMutex": "RWMutex", "sync.Once": "Once",
+	"sync.Mutex": "Mutex", "sync.RWMutex": "RWMutex", "sync.Once": "Once", "sync.Map": "Map", "sync.Pool": "Pool",
 	"sync/atomic.Value": "AtomicValue", "sync/atomic.Int32": "AtomicInt32", "sync/atomic.Int64": "AtomicInt64", "sync/atomic.Bool": "AtomicBool",
 }
 
@@ -537,7 +537,7 @@ func (r *rewriter) rewriteFile() {
 					x.X, x.Sel = ast.NewIdent("simrt"), ast.NewIdent(to)
 					r.usedSimrt = true
 				} else if !syncOK[full] {
-					r.unsupported(x, full+" (only Mutex, RWMutex, Once are simulated)")
+					r.unsupported(x, full+" (only Mutex, RWMutex, Once, Map, Pool are simulated)")
 				}
 			case path == "sync/atomic":
 				if to, ok := syncTypeMap[full]; ok {
